@@ -378,10 +378,18 @@ def ord5(ctx: Ctx):
     screened = set()
     for lid, node in r.loops.items():
         pass
+    fold = Folder(model)
     for e in r.by_kind("cond"):
-        t = e.test
-        if t[0] == "cmp" and t[1] == "In" and t[2][0] == "elem" and t[2][1][0] == "const" and isinstance(t[2][1][1], str):
-            screened |= set(t[2][1][1])
+        # `for c in S: if c in text` or `if any(c in text for c in S)`: membership of an element of a constant string,
+        # anywhere in a tested condition
+        for t in walk(e.test):
+            if t[0] == "cmp" and t[1] == "In" and t[2][0] == "elem":
+                try:
+                    chars = fold.fold(t[2][1])
+                except CannotFold:
+                    continue
+                if isinstance(chars, str):
+                    screened |= set(chars)
     raises = all(v[0] == "call" and v[1] == ("builtin", "ValueError") for _s, v, _n in r.raises) and bool(r.raises)
     nfkc = any(e.func[-1] == "normalize" and e.args and e.args[0] == ("const", "NFKC") for e in r.by_kind("call"))
     ctx.ob(rule, fi.qual, "screened characters", screened >= set(NFKC_SCREEN) and raises and nfkc,
